@@ -123,6 +123,13 @@ def container(shape: str, v):
         return {"retry-after": v}
     if shape == "upper":
         return {"RETRY-AFTER": v, "Other": "x"}
+    if shape == "mixed":
+        import random as _r
+        key = "".join(ch.upper() if _r.Random(hash(str(v)) & 0xFFFF).random() < 0.5 else ch.lower()
+                      for ch in "retry-after")
+        if key in ("retry-after", "RETRY-AFTER", "Retry-After"):
+            key = "Retry-after"
+        return {key: v, "X": "y"}
     if shape == "mapping_get_raises":
         return _RaisingMapping({"Retry-After": v})
     if shape == "pairs":
